@@ -66,6 +66,14 @@ theorem Compose_inv_history (lower : Bytes → Bytes) (cv : Conv) (cfg : C01.Cfg
   obtain ⟨h1, h2⟩ := run_abs lower cv cfg h (State.init schema bolt) C01.Inv_empty
   exact ⟨hI.store, view_inv hI, by rw [run_schema, init_schema], h1, h2⟩
 
+/-- **Compose_histOK_of_final.** The hypothesis `HistOK` splits into its NaN half, batch by batch (`HistFlt`),
+and ONE bound on the final state: the id counter never goes back, so "fewer than 2^63 node ids" need only be
+checked at the end of the history. -/
+theorem Compose_histOK_of_final (lower : Bytes → Bytes) (cv : Conv) (cfg : C01.Cfg) (st : State)
+    (h : List (C01.Op × C01.Oracle)) (hf : HistFlt lower cv cfg st h)
+    (hb : (State.run lower cv cfg st h).1.shard.nextV ≤ idBound) : HistOK lower cv cfg st h :=
+  histOK_of_final lower cv cfg h st hf hb
+
 /-- **Compose_insert_fresh** (C02's `OpOK` is a theorem here). The node ids an accepted insert hands to the
 indexes are pairwise distinct and none of them names a stored point. -/
 theorem Compose_insert_fresh (lower : Bytes → Bytes) (cv : Conv) (cfg : C01.Cfg) {st : State} (hI : Inv lower cv st)
